@@ -140,3 +140,64 @@ func (vc *VC) mapRangeGhost(x *ssa.Next, mt *types.Map, m, ok, k string) {
 	vc.assume(fmt.Sprintf("(=> %s (not (select %s %s)))", ok, cur, k))
 	vc.setComp(key, s, fmt.Sprintf("(ite %s (store %s %s true) %s)", ok, cur, k, cur))
 }
+
+// autoLocalSlices: a slice-typed loop-header phi that starts as nil and is only ever extended by append
+// points to an array allocated after function entry (or is nil). Sound by induction on iterations; assumed
+// at the loop head so that appends to such an accumulator cannot alias caller-visible arrays.
+func (vc *VC) autoLocalSlices(li *LoopInfo, hb *ssa.BasicBlock, preds []*ssa.BasicBlock) {
+	li.localSlices = nil
+	for _, ins := range hb.Instrs {
+		ph, ok := ins.(*ssa.Phi)
+		if !ok {
+			continue
+		}
+		if _, isSl := ph.Type().Underlying().(*types.Slice); !isSl || isByteSlice(ph.Type()) {
+			continue
+		}
+		good := true
+		for i, p := range hb.Preds {
+			e := ph.Edges[i]
+			if vc.isBack[[2]int{p.Index, hb.Index}] {
+				if vc.phiRoot(e, li, 0) != ph && e != ph {
+					good = false
+				}
+			} else if !vc.isLocalSliceValue(e, 0) {
+				good = false
+			}
+		}
+		if good {
+			li.localSlices = append(li.localSlices, ph)
+		}
+	}
+}
+
+// isLocalSliceValue: nil constant, or a value built only by appends starting from nil / local accumulators.
+func (vc *VC) isLocalSliceValue(v ssa.Value, depth int) bool {
+	if depth > 6 {
+		return false
+	}
+	switch x := v.(type) {
+	case *ssa.Const:
+		return x.Value == nil
+	case *ssa.Phi:
+		if li, ok := vc.loops[x.Block().Index]; ok {
+			for _, l := range li.localSlices {
+				if l == x {
+					return true
+				}
+			}
+			return false
+		}
+		for _, e := range x.Edges {
+			if !vc.isLocalSliceValue(e, depth+1) {
+				return false
+			}
+		}
+		return true
+	case *ssa.Call:
+		if b, ok := x.Call.Value.(*ssa.Builtin); ok && b.Name() == "append" {
+			return vc.isLocalSliceValue(x.Call.Args[0], depth+1)
+		}
+	}
+	return false
+}
